@@ -25,6 +25,7 @@ package ptree
 //@   loop 2 invariant account_tree_only_under_root: (!rootIsAccount || (aklen >= 2 && aklist[0] == root.Name && currentIdx >= 1)) && root != nil && root <= allocTop() && aklen == len(aklist)
 //@   at PermNode.FindChild assert searches_node_being_extended: recv == pnode && $0 == akname
 //@   at AclManager.GetAccountACL assert only_missing_children_created: childNode == nil && $0 == akname && (!rootIsAccount || (aklen >= 2 && aklist[0] == root.Name && currentIdx >= 1))
+//@   at fieldwrite.EndsURI assert marked_where_a_signer_uri_ends: $0 == pnode && pnode != root && $1 && currentIdx >= aklen
 //@   at fieldwrite.Children assert appended_to_searched_node: $0 == pnode && childNode == nil && newNode.Name == akname && newNode.Status == 1
 
 // The list a rule is evaluated over (in reverse) holds the root first and is closed
